@@ -90,6 +90,22 @@ def run_bn(case, drv):
         r = check_jt(jt, gen.bn_model_factors(case), case, drv, "BN->JT")
         if r:
             return fail(r)
+    # the SAME network object after one CPD has been replaced by another of the same shape: a conversion describes the current CPDs
+    if n and (n + len(case["edges"])) % 2:
+        c2 = dict(case)
+        c2["cpds"] = [dict(c) for c in case["cpds"]]
+        k_ = (n * 7 + len(case["edges"])) % n
+        tab = c2["cpds"][k_]["table"]
+        if len(tab) > 1:
+            c2["cpds"][k_]["table"] = tab[1:] + tab[:1]            # rows rotated: still column-normalised, other numbers
+            try:
+                bn.add_cpds(gen.cpd_to_pgmpy(c2, c2["cpds"][k_]))
+                mn2 = bn.to_markov_model()
+            except Exception as e:
+                return fail(f"to_markov_model after replacing a CPD raised {type(e).__name__}: {e}")
+            err = joint_compare(mn2.get_factors(), gen.bn_model_factors(c2), c2, drv, "BN->MN after a CPD was replaced")
+            if err:
+                return fail(err)
     return ok(nontrivial=bool(case["edges"]), n=n)
 
 
